@@ -18,6 +18,7 @@ ASSUMPTIONS = ["the statement's predicate evaluated in exact rationals", "inf, b
                "are recorded, not judged (the statement does not settle them)"]
 SUMMARY_KEYS = ["grid_tuples", "grid_accepted", "grid_rejected", "malformed", "scalings", "equiv_pairs"]
 EXHAUSTIVE = True
+THOROUGH_SCALE = 1
 CRASH_IS_VIOLATION = False
 
 
